@@ -6,23 +6,28 @@ package types
 // Decimals are their raw 10^18-scaled integers (S = 10^18); times are instants on one integer line.
 
 //@ func (Bid).ConvertToPayingAmount
+//@ serves C07
 //@ requires b.Coin.Amount >= 0 && b.Price >= 0
 //@ ensures [C01,C02,C04,C11] paying-is-ceil: amount == payOf(b, denom)
 //@ ensures [C04] never-below-price-times-quantity: b.Coin.Denom != denom ==> amount * S >= b.Coin.Amount * b.Price && amount * S < b.Coin.Amount * b.Price + S
 
 //@ func (Bid).ConvertToSellingAmount
+//@ serves C07
 //@ requires b.Coin.Amount >= 0 && b.Price > 0
 //@ ensures [C04,C05,C06] selling-is-floor: amount == sellOf(b, denom)
 //@ ensures [C04] rounding-in-auctioneers-favour: b.Coin.Denom == denom ==> amount * b.Price <= b.Coin.Amount * S && b.Coin.Amount * S < (amount + 1) * b.Price
 
 //@ func (BaseAuction).ShouldAuctionStarted
+//@ serves C07
 //@ ensures [C08] starts-at-or-after-start-time: result == (ba.StartTime <= t)
 
 //@ func (BaseAuction).ShouldAuctionClosed
+//@ serves C07
 //@ requires len(ba.EndTimes) >= 1
 //@ ensures [C08,C13] closes-at-or-after-last-end-time: result == (ba.EndTimes[len(ba.EndTimes)-1] <= t)
 
 //@ func (VestingQueue).ShouldRelease
+//@ serves C07
 //@ ensures [C08,C09] due-and-not-yet-released: result == (vq.ReleaseTime <= t && !vq.Released)
 
 // ValidateVestingSchedules accepts exactly: no schedule at all, or weights in (0,1] summing to one with release
@@ -207,6 +212,7 @@ package types
 // reflection-based swapping is outside the verified subset; the contract is exercised by the bounded conformance test
 // of the thorough tier (/verif/conformance). The caller's slice is sorted in place, hence "modifies *bids".
 //@ func BidsByPrice
+//@ serves C07
 //@ trusted uses sort.Slice (reflection-based swapping), outside the verified subset; bounded conformance test in the thorough tier
 //@ modifies *bids
 //@ ensures [C03] same-bids-reordered: len(bids) == old(len(bids)) && forall(m, int, 0 <= m && m < len(bids) ==> exists(k, int, 0 <= k && k < len(bids) && bids[m] == old(bids[k]))) && forall(k, int, 0 <= k && k < len(bids) ==> exists(m, int, 0 <= m && m < len(bids) && bids[m] == old(bids[k])))
